@@ -104,6 +104,7 @@ type FuncCtx struct {
 	specDepth      int
 	cerrs          []string
 	guardObls      []*Obligation
+	sendNonBlocking bool // set while the comm statement of a select WITH a default clause is executed
 	escDone        bool
 	escCaps        []capturedVar
 }
